@@ -43,6 +43,7 @@ def carry_model(chk):
     carry bound, conservation of area and their consequences (at most the target, short of it by less than the last cell's height, never narrower);
     every final state is replayed into the real function (ties at exact integers are where double arithmetic may differ: informational)."""
     import json
+    import os
     import shutil
     import vlib
     cfg = "ExpandImpl_" + chk.tier
